@@ -30,3 +30,18 @@ pub use self::postfix_transform::PostfixTransform;
 pub use self::trait_impl::TraitImpl;
 pub use self::variant::Variant;
 pub use self::variant_data::FieldsGen;
+
+/// A function path as it has to be spelled in expression position: generic arguments need a
+/// turbofish there (`Vec::<u8>::new`), which a path read from a string (`"Vec<u8>::new"`) does
+/// not have.
+pub(in crate::codegen) fn expr_style(path: &syn::Path) -> syn::Path {
+    let mut path = path.clone();
+    for segment in path.segments.iter_mut() {
+        if let syn::PathArguments::AngleBracketed(ref mut args) = segment.arguments {
+            if args.colon2_token.is_none() {
+                args.colon2_token = Some(syn::Token![::](args.lt_token.span));
+            }
+        }
+    }
+    path
+}
